@@ -523,6 +523,23 @@ def fixed_cases(tier):
                              ("z80", ["x equ 1e308*10.0-1e308*10.0", " jp fwd", "fwd: nop"], []),
                              ("6809", [" assume dpr:$20", " cpu z80", " assume dpr:$20", " db assumedval(dpr)"], [])]:
         out.append(dict(kind="stmt", cpu=cpu, lines=lines, opts=opts))
+    # dasl decoders: two-byte opcodes as entry points (87C00: every prefix byte x second byte; 6800 / 4004: every first byte
+    # with three operand bytes), 120 entries per run (the tools take 256 arguments).
+    # Regressions: 87C00 register prefix EC..EF + an opcode that only exists for register pairs spun for ever; more
+    # than 256 arguments overflowed the argument bookkeeping of every tool
+    for cpu in ("87C00", "6800", "4004"):
+        seconds = range(256) if cpu == "87C00" else (0x00, 0x80, 0xff)
+        pairs = ["%02x%02x0000" % (a, b) for a in range(256) for b in seconds]
+        if tier == "quick" and cpu == "87C00":
+            # quick: the prefix bytes (E0..FF) completely, a rotating eighth of the rest
+            ph = engine.seed_from_env() % 8
+            pairs = [p for k, p in enumerate(pairs) if int(p[:2], 16) >= 0xe0 or (k // 256) % 8 == ph]
+        for q in range(0, len(pairs), 120):
+            sub = [[0x1000 + 8 * j, hx] for j, hx in enumerate(pairs[q:q + 120])]
+            out.append(dict(kind="tool", tool="dasl", cpu=cpu, mode="multi", chunks=sub, fmt="hex",
+                            entries=[c[0] for c in sub], junkopt=None, data="", base=0, entry=None))
+    out.append(dict(kind="tool", tool="dasl", cpu="87C00", mode="multi", chunks=[[0x1000 + 8 * j, "00"] for j in range(300)],
+                    fmt="hex", entries=[0x1000 + 8 * j for j in range(300)], junkopt=None, data="", base=0, entry=None))
     for n in corpus.names():
         out.append(dict(kind="mut", test=n, ops=[]))       # the unmodified golden programs under the sanitizers
     root = os.path.join(engine.ROOT, "fuzz")
